@@ -128,6 +128,13 @@ type negServer struct {
 	after func(kind string, conn net.Conn)
 }
 
+// xmlAttrEscape: a server-chosen id may contain anything attribute-legal
+func xmlAttrEscape(s string) string {
+	var b strings.Builder
+	xml.EscapeText(&b, []byte(s))
+	return b.String()
+}
+
 func (sv *negServer) rec(kind string, secure bool) {
 	sv.mu.Lock()
 	b := "0"
@@ -329,9 +336,9 @@ func (sv *negServer) serve(conn net.Conn) {
 			sv.rec("resume/"+hx(previd)+"/"+h, secure)
 			switch m["res"] {
 			case "same":
-				w("<resumed xmlns='" + nsSM + "' previd='" + previd + "' h='0'/>")
+				w("<resumed xmlns='" + nsSM + "' previd='" + xmlAttrEscape(previd) + "' h='0'/>")
 			case "otherid":
-				w("<resumed xmlns='" + nsSM + "' previd='not-" + previd + "' h='0'/>")
+				w("<resumed xmlns='" + nsSM + "' previd='not-" + xmlAttrEscape(previd) + "' h='0'/>")
 			case "failed":
 				// a refusal with the usual condition (not one the decoder knows), without any, with one it knows
 				switch sv.variant % 3 {
@@ -401,7 +408,7 @@ func (sv *negServer) serve(conn net.Conn) {
 		case "enable":
 			dec.Skip()
 			sv.rec("enable", secure)
-			id := unhx(m["smid"])
+			id := xmlAttrEscape(unhx(m["smid"]))
 			switch m["en"] {
 			case "enabled1":
 				w("<enabled xmlns='" + nsSM + "' id='" + id + "' resume='true'/>")
@@ -928,6 +935,14 @@ func (np negProp) Generate(rng *rand.Rand, tier string, st *Stats) []Case {
 				st.Inc("websocket_gate")
 			}
 		}
+	}
+
+	// a stream-management id with markup characters in it: what the client presents on the next connection is that
+	// id, properly escaped
+	for _, id := range []string{"sm&1'<x>\"y", "a b\tc", "é<![CDATA["} {
+		mk(true, true, happy(false, false, true).with("smid", hx(id)).op(), []string{"setinbound", "2"},
+			happy(false, false, true).with("smid", hx("sm-next")).op())
+		st.Inc("sm_id_with_markup")
 	}
 
 	// traffic logging on (the stream logger sits between the transport and the socket, also after STARTTLS)
